@@ -45,7 +45,7 @@ class Ctx:
         d = detail if isinstance(detail, str) else repr(detail)
         if len(d) > 1500:
             d = d[:1500] + "...[cut]"
-        self.violations.append((key, d))
+        self.violations.append((key.replace(" ", "_"), d))
 
     def trip(self, key, detail=""):
         self.monitor_trips.append((key, detail if isinstance(detail, str) else repr(detail)))
